@@ -1172,4 +1172,44 @@ def rule_dedup(ctx):
     return r
 
 
-RULES = [rule_diag, rule_dedup, rule_plandep, rule_layout, rule_perm, rule_single, rule_axes, rule_memo, rule_exec, rule_pure]
+_NOT_EINSUM = {"vdot": "conjugates its first operand (and flattens both)", "conj": "conjugates", "conjugate": "conjugates",
+               "inner": "contracts the *last* axes whatever the equation says", "outer": "flattens its operands",
+               "kron": "interleaves axes", "cross": "is not a contraction"}
+
+
+def rule_prims(ctx):
+    """(seed C01_8) einsum is linear in each operand and never conjugates; the executor may only use array primitives
+    with that semantics.  No call in `contract.py` — `do("<name>", …)` or `xp.<name>(…)` — names a primitive that
+    conjugates or flattens (`vdot`, `conj`, `inner`, `outer`, `kron`): such a shortcut is right for real arrays and
+    wrong for complex ones."""
+    r = RuleResult("C11-PRIMS", "the executor uses no conjugating / flattening primitive", 1)
+    m = ctx.p.module(C.CONTRACT)
+    n_do = 0
+    bad = []
+    for f in m.all_funcs:
+        for c in (n for n in walk_local(f.node) if isinstance(n, ast.Call)):
+            name = None
+            if dotted(c.func) == "do" and c.args and isinstance(c.args[0], ast.Constant) and isinstance(c.args[0].value, str):
+                name = c.args[0].value
+                n_do += 1
+            elif isinstance(c.func, ast.Attribute) and c.func.attr in _NOT_EINSUM:
+                name = c.func.attr
+            elif isinstance(c.func, ast.Name) and c.func.id in _NOT_EINSUM:
+                name = c.func.id
+            if name is not None and name.split(".")[-1] in _NOT_EINSUM:
+                bad.append((f, c, name.split(".")[-1]))
+    C.require(n_do >= 5, "contract.py: array primitives (`do(...)`) not found")
+    if bad:
+        for f, c, name in bad:
+            r.violation(ctx.key(f, "C11-PRIMS", name), C.loc(f, c), f"`{C.unparse(c, 60)}`: `{name}` {_NOT_EINSUM[name]} — einsum does not; the step is "
+                        "right for real arrays and wrong for complex ones (or for operands of rank above one)")
+    else:
+        r.ok(f"{C.CONTRACT}::C11-PRIMS", C.CONTRACT, f"{n_do} primitive calls: none conjugates or flattens")
+        if not getattr(ctx, "_is_positive_example", False):
+            r.note(C.positive_example(ctx, rule_prims, [(C.CONTRACT, None, ctx.p.sources[C.CONTRACT] +
+                   "\n\ndef _c11_prims_positive_example(a, b, backend=None):\n    return do(\"vdot\", a, b, like=backend)\n")],
+                   "_c11_prims_positive_example"))
+    return r
+
+
+RULES = [rule_prims, rule_diag, rule_dedup, rule_plandep, rule_layout, rule_perm, rule_single, rule_axes, rule_memo, rule_exec, rule_pure]
